@@ -231,7 +231,7 @@ func TestC12_P_HamtFaults(t *testing.T) {
 						break
 					}
 				}
-				for ep := 0; ep < 3; ep++ {
+				for ep := 0; ep < 4; ep++ {
 					var v datamodel.Node
 					var lerr error
 					must(t, "lookup under fault", func() {
@@ -240,6 +240,9 @@ func TestC12_P_HamtFaults(t *testing.T) {
 							v, lerr = rn.LookupByString(name)
 						case 1:
 							v, lerr = rn.LookupByNode(basicnode.NewString(name))
+						case 3:
+							// a key of the type the directory's own iterators hand out
+							v, lerr = rn.LookupByNode(pbString(name))
 						default:
 							v, lerr = rn.LookupBySegment(datamodel.PathSegmentOfString(name))
 						}
